@@ -240,6 +240,21 @@ def gen_registry():
         raise ExtractionError('isChannel channellen default is not an int')
     isch_src = ast.unparse(_one([n for n in ast.walk(isch) if isinstance(n, ast.Return)], 'isChannel return').value)
 
+    # --- the interpreter's decimal digit table (int() accepts every Unicode decimal digit): code points of the zeros;
+    #     Unicode lays the ten digits of a script out contiguously, which is checked here
+    import unicodedata, sys as _sys
+    zeros = []
+    for cp in range(128, _sys.maxunicode + 1):
+        dv = unicodedata.decimal(chr(cp), None)
+        if dv is not None:
+            if dv == 0:
+                zeros.append(cp)
+            elif not zeros or cp - zeros[-1] != dv:
+                raise ExtractionError('decimal digits of U+%04X are not a contiguous run of ten' % cp)
+    for z in zeros:
+        if [unicodedata.decimal(chr(z + i), None) for i in range(10)] != list(range(10)):
+            raise ExtractionError('decimal digits from U+%04X are not a contiguous run of ten' % z)
+
     # --- finite tables of conf.py validators
     oss_tables = []
     for cdef in sorted((n for n in ast.walk(conf) if isinstance(n, ast.ClassDef)), key=lambda c: c.lineno):
@@ -368,6 +383,7 @@ def gen_registry():
     d('ircutils.isChannel: default chantypes', 'chanTypes', 'Py.Str', lstr(chantypes))
     d('ircutils.isChannel: default channellen', 'chanLen', 'Nat', str(int(channellen)))
     d('ircutils.isChannel: source of the returned expression', 'isChannelSrc', 'String', lstring(isch_src))
+    d('code points of the non-ASCII characters with decimal digit value 0 (each followed by its 1..9) in this interpreter', 'decimalZeros', 'List Nat', llist(str(z) for z in zeros))
     d('validStrings of the conf.py subclasses of OnlySomeStrings', 'onlySomeStringsTables', 'List (String × List Py.Str)',
       llist('(%s, %s)' % (lstring(n), llist(lstr(x) for x in t)) for n, t in oss_tables))
     d('conf.ValidPrefixChars: the allowed characters', 'validPrefixChars', 'Py.Str', lstr(prefix_chars))
